@@ -13,19 +13,21 @@ import (
 // C15 / C16: loader order, file selection, declaration order.
 
 type pkgGraph struct {
-	paths []string            // import paths of the script packages, paths[0] = top ("main")
-	edges map[string][]string // imports in source order (script and native)
-	dir   map[string]string   // directory in the file system
-	files map[string]int      // number of files the package is split into
+	paths      []string            // import paths of the script packages, paths[0] = top ("main")
+	edges      map[string][]string // imports in source order (script and native)
+	dir        map[string]string   // directory in the file system
+	files      map[string]int      // number of files the package is split into
+	dupImports map[string]bool     // some dependencies are imported from more than one file of the package
 }
 
 var nativePkgs = []string{"fmt", "strings", "math"}
 
 func genGraph(r *rng, n int, cyclic bool) *pkgGraph {
-	gph := &pkgGraph{edges: map[string][]string{}, dir: map[string]string{}, files: map[string]int{}}
+	gph := &pkgGraph{edges: map[string][]string{}, dir: map[string]string{}, files: map[string]int{}, dupImports: map[string]bool{}}
 	gph.paths = append(gph.paths, "main")
 	gph.dir["main"] = "main"
 	gph.files["main"] = 1 + r.intn(2)
+	gph.dupImports["main"] = r.chance(40)
 	for i := 1; i < n; i++ {
 		var p string
 		switch r.intn(4) {
@@ -44,6 +46,7 @@ func genGraph(r *rng, n int, cyclic bool) *pkgGraph {
 		}
 		gph.paths = append(gph.paths, p)
 		gph.files[p] = 1 + r.intn(3)
+		gph.dupImports[p] = r.chance(40)
 	}
 	// DAG edges: i -> j for j > i, every package reachable from main
 	for j := 1; j < n; j++ {
@@ -118,6 +121,10 @@ func (gph *pkgGraph) buildFS(r *rng, decoys bool) fstest.MapFS {
 			// spread the imports over the files
 			for k, q := range imps {
 				if k%nf == f {
+					fmt.Fprintf(&sb, "import \"%s\"\n", q)
+				} else if gph.dupImports[p] && (k+f)%2 == 0 {
+					// the same dependency imported again from another file of the package (one edge of the graph,
+					// several import specs)
 					fmt.Fprintf(&sb, "import \"%s\"\n", q)
 				}
 			}
@@ -490,6 +497,11 @@ func cmdC16Perm(seed uint64, n int, dir string) {
 		hoist = append(hoist, fmt.Sprintf("func shadowP(g0 int, k0 int) int {\n\thelper := g0 * 2\n\treturn helper + k0 + %d\n}\n", r.intn(9)))
 		hoist = append(hoist, "func shadowL(a int) int {\n\tg1 := a + 100\n\tf0 := g1 * 2\n\treturn f0 + g1\n}\n")
 		hoist = append(hoist, fmt.Sprintf("func (t *T0) shadowM(g0 int) int {\n\treturn t.v + g0 + %d\n}\n", r.intn(9)))
+		// a variadic function and callers that pass no surplus argument / some / a spread slice: whether the callee
+		// is compiled before or after its callers must not decide what it receives (nil for no surplus argument)
+		hoist = append(hoist, "func vlist(tag string, xs ...int) string {\n\tif xs == nil {\n\t\treturn tag + \":none\"\n\t}\n\treturn tag + \":\" + fmt.Sprint(len(xs))\n}\n")
+		hoist = append(hoist, fmt.Sprintf("func callV0() string {\n\treturn vlist(\"a\") + vlist(\"b\", 1, %d)\n}\n", r.intn(9)))
+		hoist = append(hoist, "func callV1(a int) string {\n\tys := []int{a}\n\treturn vlist(\"c\", ys...) + vlist(\"d\")\n}\n")
 		// non-hoistable sequence (kept in order)
 		var fixed []string
 		fixed = append(fixed, fmt.Sprintf("const k0 = %d\n", r.intn(9)+1), "const k1 = k0 + 2\n")
@@ -510,6 +522,7 @@ func cmdC16Perm(seed uint64, n int, dir string) {
 			mainFn += fmt.Sprintf("\tx%d := &T%d{%s}\n\tfmt.Println(x%d.m0(2))\n\tfmt.Println(\"S\", x%d)\n", i, i, init, i, i)
 		}
 		mainFn += "\tfmt.Println(readG(), shadowP(3, 4), shadowL(5), x0.shadowM(6))\n"
+		mainFn += "\tfmt.Println(callV0(), callV1(4), vlist(\"m\"))\n"
 		mainFn += "\tfmt.Println(g0, g1, k1)\n}\n"
 		hoist = append(hoist, mainFn)
 		variant := func(perm bool, nfiles int) fstest.MapFS {
